@@ -15,6 +15,7 @@ DIMS = {
     "width": [1275, 0, 3000],
     "scene": ["base", "nogroup", "three_glyphs", "reuse_rot"],
     "range": ["300-700", "100-900", "0-1"],
+    "master_names": ["plain", "suffix"],
 }
 K = {"quick": 1, "thorough": 2}
 VARIANT = {
@@ -88,9 +89,11 @@ def execute(dev):
     try:
         cfg = {"output_file": "VF.ttf", "color_format": "glyf_colr_1", "upem": upem, "ascender": asc, "descender": desc, "width": a["width"],
                "axis": {"wght": {"name": "Weight", "default": default}}, "master": {}}
+        # master names: plain (m0, m1, ...) or names one of which is a suffix of an earlier one
+        mnames = [f"m{i}" for i in range(len(masters))] if a["master_names"] == "plain" else ["regular", "semibold", "bold"][-len(masters):] if len(masters) == 2 else ["regular", "semibold", "bold"]
         for i, (gl, p) in enumerate(zip(masters, pos)):
             files = cli.write_sources(w / f"m{i}", [(f"emoji_u{'_'.join('%04x' % c for c in g.cps)}.svg", g.svg()) for g in gl])
-            cfg["master"][f"m{i}"] = {"style_name": f"M{i}", "position": {"wght": p}, "srcs": [str(f) for f in files]}
+            cfg["master"][mnames[i]] = {"style_name": mnames[i].title(), "position": {"wght": p}, "srcs": [str(f) for f in files]}
         (w / "vf.toml").write_text(toml.dumps(cfg))
         r = cli.nanoemoji(w, [w / "vf.toml"], timeout=900)
         out = w / "build" / "VF.ttf"
